@@ -209,7 +209,7 @@ def shard(ctx, budget_s, n_http, n_rpc, maxlen):
 def run(tier, seed):
     v = core.Verdict(PROP, tier, seed)
     if tier == "quick":
-        v.merge(core.run_shards(shard, PROP, tier, seed, budget_s=40, n_http=3, n_rpc=3, maxlen=80))
+        v.merge(core.run_shards(shard, PROP, tier, seed, budget_s=40, n_http=8, n_rpc=8, maxlen=80))
     else:
         v.merge(core.run_shards(shard, PROP, tier, seed, budget_s=900, n_http=12, n_rpc=12, maxlen=120))
     return v.finish(RULE, floor=5000, assumptions=ASSUME)
